@@ -30,26 +30,26 @@ try:
         res['suite_with_change'] = r.stdout.strip().splitlines()[-1] if r.stdout.strip() else r.stderr[-200:]
         r = sh(env + '/venv/bin/python %s/demo.py' % src); res['demo_changed_rc'] = r.returncode
         res['demo_changed_tail'] = (r.stdout + r.stderr)[-400:]
+    ok = res.get('applies') and res.get('demo_unchanged_rc') == 0 and res.get('demo_changed_rc', 0) != 0 \
+        and 'passed' in res.get('suite_with_change', '') and 'failed' not in res.get('suite_with_change', '')
+    res['confirmed'] = bool(ok)
+    # run my registered quick check against the changed tree: the scratch worktree (change applied) is what the check is
+    # pointed at (VERIF_REPO); /repo itself is not touched
+    if ok:
+        sh('cd %s && rm -rf _seeded' % wt)
+        r = sh('cd %s && VERIF_REPO=%s timeout 1500 ./check %s --tier quick' % (VERIF, wt, pid))
+        res['check_rc'] = r.returncode
+        res['check_tail'] = r.stdout.strip().splitlines()[-3:]
 finally:
     sh('git -C /repo worktree remove --force %s' % wt)
     shutil.rmtree(wt, ignore_errors=True)
-ok = res.get('applies') and res.get('demo_unchanged_rc') == 0 and res.get('demo_changed_rc', 0) != 0 \
-     and 'passed' in res.get('suite_with_change', '') and 'failed' not in res.get('suite_with_change', '')
-res['confirmed'] = bool(ok)
-# run my check against it
-if ok and sh('git -C /repo diff --quiet').returncode == 0:
-    sh('git -C /repo apply %s/patch.diff' % src)
-    try:
-        r = sh('cd %s && ./check %s --tier quick' % (VERIF, pid))
-        res['check_rc'] = r.returncode
-        res['check_tail'] = r.stdout.strip().splitlines()[-3:]
-    finally:
-        sh('git -C /repo checkout -- .')
+    sh('git -C /repo worktree prune')
+ok = res.get('confirmed')
 meta = json.load(open(os.path.join(src, 'meta.json')))
 meta.update({'property': pid, 'confirmation': res,
              'ran': ['scratch worktree: demo.py on unchanged code (must exit 0)', 'git apply patch.diff',
                      'pytest tests bench (must pass)', 'demo.py (must exit non-zero)',
-                     'git -C /repo apply; ./check %s --tier quick; git -C /repo checkout -- .' % pid]})
+                     'VERIF_REPO=<scratch worktree with the change> ./check %s --tier quick' % pid]})
 if ok:
     dst = os.path.join(VERIF, 'seeded', '%s-%s' % (pid, k))
     os.makedirs(dst, exist_ok=True)
